@@ -109,6 +109,8 @@ def guard(ctx, case, what, fn, *a, **k):
     an exception raised by the harness itself is a HarnessError (exit 2, never a VIOLATION)."""
     passthrough = k.pop("_passthrough", ())
     refusal_ok = k.pop("_refusal_ok", False)
+    from .ops import reset_budget
+    reset_budget()
     try:
         return fn(*a, **k)
     except env.TraphException as e:
